@@ -132,7 +132,7 @@ fn check(prop: &str, tier: &str, seed: u64, only: Option<&str>, jobs: usize) -> 
     let ncpu = 16usize;
     let workers = if jobs > 0 { jobs } else { items.len().min(ncpu) };
     let par = (2 * ncpu / workers).clamp(1, 8);
-    let dir = format!("/verif/target-hooks/results/{}-{}-{}", prop, tier, std::process::id());
+    let dir = format!("{}/results-{}-{}-{}", std::env::var("MAYVERIF_TMP").unwrap_or_else(|_| "/verif/target-hooks".to_string()), prop, tier, std::process::id());
     std::fs::create_dir_all(&dir).unwrap();
     // shared work counter
     let counter = unsafe {
